@@ -37,6 +37,14 @@ PALETTE = {
     "starts_with_T": ("T first; int after;", "o.c", {"typedefs", "buffer"}, {"typedefs"}),
     "starts_with_rbrace": ("} int x;", "p.c", {"buffer"}, {"scopes"}),
     "starts_with_V_use": ("V * w;", "q.c", {"buffer"}, {"typedefs", "scopes"}),
+    # token-aligned pairs around the speculative '(' type-name ')' sites: one fails right after the speculation,
+    # the other has an ordinary '(' at the same token index
+    "fail_preinc_cast": ("int a = ++(int)b;", "r.c", {"buffer"}, {"buffer"}),
+    "paren_expr_same_index": ("int a = -(b + c) * 2;", "s.c", {"buffer"}, {"buffer"}),
+    "fail_sizeof_type_junk": ("int a = sizeof(int) b;", "t.c", {"buffer"}, {"buffer"}),
+    "sizeof_paren_expr": ("int a = sizeof(b) + 2;", "u.c", {"buffer"}, {"buffer"}),
+    "fail_complit_open": ("int a = (int){1;", "v.c", {"buffer", "scopes"}, {"buffer", "scopes"}),
+    "paren_expr_first": ("int a = (b) + 1;", "w.c", {"buffer"}, {"buffer"}),
 }
 COMPONENTS = {"scopes", "typedefs", "pending", "file", "line", "buffer"}
 
